@@ -113,12 +113,9 @@ def handle (op : String) (j : Json) : Option (Except String Json) :=
                   ("base_is", Json.bool (baseIs b c)), ("view_a", va)])
   | "c15_lines" => some do
       let tk ← gtreeOf (← j.getObjVal? "tree")
-      let head ← gtreeOf (← j.getObjVal? "head")
       let k ← getNatField j "k"
-      let changed ← strList (← j.getObjVal? "changed")
-      let rebase ← getBoolField j "rebase"
       pure (jObj [("per_commit", jTriples (perCommitLines k tk)),
-                  ("slow", jTriples (slowLinesFor rebase head tk changed))])
+                  ("slow", jTriples (slowLines tk))])
   | _ => none
 
 end GitAi.Driver.RemapD
